@@ -112,40 +112,37 @@ def dAbs (D : FSData) (p : String) : String := if isAbs p then clean p else join
 def dIsDir (D : FSData) (a : String) : Bool := D.dirs.contains a
 def dIsFile (D : FSData) (a : String) : Bool := (assoc a D.docs).isSome || (assoc a D.envs).isSome
 
-def envSet (k v : String) : Env → Env
-  | [] => [(k, v)]
-  | (k', v') :: r => if k = k' then (k, v) :: r else (k', v') :: envSet k v r
-
-/-- one dotenv file: every value is expanded with `lookupFn` (current environment, then earlier files) and
+/-- one dotenv file: every value is expanded with the lookup `lk` (current environment, then earlier files) and
 then the entries of the same file read so far -/
-def parseEnvEntries (cur acc : Env) : List (String × String) → Env → Out Env
+def parseEnvEntriesL (lk : String → Option String) : List (String × String) → Env → Out Env
   | [], out => .ok out
   | (k, t) :: r, out =>
-    (substStr (fun x => match cur.get x with
+    (substStr (fun x => match lk x with
         | some v => some v
-        | none => match acc.get x with
-          | some v => some v
-          | none => out.get x) t).bind fun v => parseEnvEntries cur acc r (envSet k v out)
+        | none => out.get x) t).bind fun v => parseEnvEntriesL lk r (envSet k v out)
 
-/-- `dotenv.GetEnvFromFile` -/
-def envFromFileD (D : FSData) (cur : Env) : List String → Env → Out Env
-  | [], acc => .ok acc
-  | f :: rest, acc =>
-    let a := dAbs D f
-    if dIsDir D a then .err "isDir"
-    else match assoc a D.envs with
-      | none => if (assoc a D.docs).isSome then .err "outOfDomain" else .err "envNotFound"
-      | some entries =>
-        match parseEnvEntries cur acc entries [] with
-        | .ok out => envFromFileD D cur rest (out.foldl (fun m kv => envSet kv.1 kv.2 m) acc)
-        | .err _ => .err "envParse"
-        | .panic s => .panic s
+/-- the file system and the dotenv reader of the driver world, as `GetEnvFromFile` sees them -/
+def envWorldOf (D : FSData) : EnvWorld (List (String × String)) :=
+  { abs := dAbs D,
+    stat := fun a => if dIsDir D a then .dir else if dIsFile D a then .file else .missing,
+    read := fun a => match assoc a D.envs with
+      | some entries => .ok entries
+      | none => .err "outOfDomain",   -- a compose file used as env_file: outside the fragment
+    parse := fun entries lk =>
+      match parseEnvEntriesL lk entries [] with
+      | .ok out => .ok out
+      | .err _ => .err "envParse"
+      | .panic s => .panic s }
+
+/-- `dotenv.GetEnvFromFile` of the driver world = the model `getEnvLoop` in `envWorldOf D` -/
+def envFromFileD (D : FSData) (cur : Env) (files : List String) : Out Env :=
+  getEnvFromFile (envWorldOf D) cur files
 
 /-! ### `loadYamlModel` / `loadYamlFile` on the fragment -/
 
 def worldOf (D : FSData) (loadModel : String → String → List String → Env → List String → Out KVs) : World :=
   { cwd := D.cwd, isDir := dIsDir D, isFile := dIsFile D,
-    envFromFile := fun cur fs => envFromFileD D cur fs [], loadModel := loadModel,
+    envFromFile := fun cur fs => envFromFileD D cur fs, loadModel := loadModel,
     resolveRes := fun base key v =>
       match resolvePaths D.home base [(key, .map [("x", v)])] with
       | .ok [(_, .map [(_, r)])] => some r
